@@ -124,6 +124,16 @@ class DiffXDOMWriter(object):
         """
         options = section.options
 
+        if section.section_name == 'meta' and 'line_endings' in options:
+            # The streaming writer never writes line_endings= for metadata
+            # sections (it has no meaning for JSON), and write_meta() does not
+            # take it. A value loaded from a file is not passed on.
+            options = {
+                _key: _value
+                for _key, _value in options.items()
+                if _key != 'line_endings'
+            }
+
         try:
             remapped_options = self._remapped_options[section.section_name]
         except KeyError:
